@@ -31,6 +31,17 @@ def impl_run(task):
     import odetoolbox
     from odetoolbox.mixed_integrator import MixedIntegrator
     ind = task["indict"]
+    # other systems simulated earlier in this interpreter (each once, default arguments)
+    for bi in task.get("before", []):
+        b_ind, b_da, _ = SYSTEMS[bi]
+        b_solvers, b_sys, b_shapes = odetoolbox._analysis(b_ind, disable_stiffness_check=True, disable_analytic_solver=b_da)
+        b_num = [s for s in b_solvers if s["solver"].startswith("numeric")][0]
+        b_ana = [s for s in b_solvers if s["solver"] == "analytical"]
+        b_mi = MixedIntegrator(odeiv.step_rk4, b_sys.get_sub_system([sympy.Symbol(v) for v in b_num["state_variables"]]), b_shapes, analytic_solver_dict=(b_ana[0] if b_ana else None),
+                               parameters={}, spike_times={}, max_step_size=0.5, sim_time=1.0, alias_spikes=False)
+        odeiv.SCRIPT["fracs"] = [1.0]
+        odeiv.SCRIPT["mode"] = "euler"
+        b_mi.integrate_ode(h_min_lower_bound=1e-300, raise_errors=False)
     solvers, sys_, shapes = odetoolbox._analysis(ind, disable_stiffness_check=True, disable_analytic_solver=task["disable_analytic"])
     num = [s for s in solvers if s["solver"].startswith("numeric")][0]
     ana = [s for s in solvers if s["solver"] == "analytical"]
@@ -133,13 +144,20 @@ def run(ctx):
                     r["bounds"][nm] = b
             runs.append(r)
         tasks.append({"fn": "c13.impl_run", "indict": ind, "disable_analytic": da, "runs": runs, "timeout": 900})
-        meta.append((si, runs))
-    res = C.run_tasks(tasks, timeout=900, stub=True)
+        meta.append((si, runs, []))
+        # the same instance after OTHER systems (sharing variable names, with other initial values) were simulated in the same interpreter
+        before = [k for k in range(len(SYSTEMS)) if k != si]
+        rng.shuffle(before)
+        before = before[: (2 if quick else 3)]
+        nb = 8 if quick else 60
+        tasks.append({"fn": "c13.impl_run", "indict": ind, "disable_analytic": da, "runs": runs[:nb], "before": before, "timeout": 1800, "fresh": True})
+        meta.append((si, runs[:nb], before))
+    res = C.run_tasks(tasks, timeout=1800, stub=True)
     coq, info, probe_failures, corr_errors = [], [], [], []
     dist = {"runs": 0, "alias": 0, "precise": 0, "with_upper": 0, "with_lower": 0, "crossed": 0, "errors": 0, "spikes_total": 0, "partial_step_scripts": 0, "systems": [d for _, _, d in SYSTEMS]}
     nontriv = set()
     samples = []
-    for (si, runs), r in zip(meta, res):
+    for (si, runs, before), r in zip(meta, res):
         if r.get("outcome") != "Ok":
             corr_errors.append("instance %d failed: %s %s" % (si, r.get("outcome"), r.get("detail", "")[:300]))
             continue
@@ -150,7 +168,7 @@ def run(ctx):
             dist["runs"] += 1
             if not o["ok"]:
                 dist["errors"] += 1
-                probe_failures.append({"key": "integrate_ode raises: " + C.stable_hash([si, run_]), "what": "integrate_ode raised %s for run %s on %s" % (o["err"], run_, SYSTEMS[si][0]), "replay": {"system": si, "run": run_}})
+                probe_failures.append({"key": "integrate_ode raises: " + C.stable_hash([si, run_]), "what": "integrate_ode raised %s for run %s on %s" % (o["err"], run_, SYSTEMS[si][0]), "replay": {"system": si, "run": run_, "before": before}})
                 continue
             dist["alias" if run_["alias"] else "precise"] += 1
             dist["with_upper"] += int(any("ub" in b for b in run_["bounds"].values()))
@@ -222,7 +240,7 @@ def run(ctx):
                             fails.append(("spikes", "%s: the %d spike(s) due at step boundary %s (among them the one at %s) were not applied there exactly once: value %s, expected %s" % (names[i], napplied, tl[k], s, yl[k][i], before + napplied * ivs[i])))
             for key, what in fails[:2]:
                 kk = "lower bound not enforced" if key == "lower_bound" else "%s: %s" % (key, C.stable_hash([si, run_]))
-                probe_failures.append({"key": kk, "what": what + " | system %s run %s" % (SYSTEMS[si][0]["dynamics"], run_), "replay": {"system": si, "run": run_}})
+                probe_failures.append({"key": kk, "what": what + " | system %s run %s" % (SYSTEMS[si][0]["dynamics"], run_), "replay": {"system": si, "run": run_, "before": before}})
             # ---------- correspondence ----------
             allt = tl + [a[0] for a in o["answers"]] + [sim, run_["max_step"]] + [s for ts in run_["spk"].values() for s in ts]
             k = ticks_scale(allt)
@@ -238,8 +256,9 @@ def run(ctx):
                 C.clist([fq(v) for v in ivs]),
                 C.clist(["(%s, %s)" % (tz(a[0]), C.clist([fq(v) for v in a[1]])) for a in o["answers"]]),
                 C.clist([tz(t) for t in tl]), C.clist([C.clist([fq(v) for v in row]) for row in yl]), C.cbool(o["crossed"])))
-            info.append({"system": SYSTEMS[si][0], "run": run_, "t_log": tl[:12]})
-            nontriv.add(C.stable_hash([si, run_]))
+            info.append({"system": SYSTEMS[si][0], "run": run_, "simulated_before_in_same_interpreter": before, "t_log": tl[:12]})
+            nontriv.add(C.stable_hash([si, run_, before]))
+            dist["runs_after_other_systems_in_one_interpreter"] = dist.get("runs_after_other_systems_in_one_interpreter", 0) + int(bool(before))
             if len(samples) < 3 and run_["spk"] and run_["bounds"]:
                 samples.append({"system": SYSTEMS[si][0], "run": run_, "t_log": tl, "y_log": yl})
     mism, errs = C.coq_eval_shards(PROP, HEADER, coq, per=40)
@@ -269,11 +288,13 @@ def replay(payload):
     if "run" not in rp:
         return True, "replay file names a broken obligation (no concrete input): " + str(payload.get("no_longer_checks"))[:500]
     ind, da, _ = SYSTEMS[rp["system"]]
-    r = C.run_tasks([{"fn": "c13.impl_run", "indict": ind, "disable_analytic": da, "runs": [rp["run"]]}], timeout=600, stub=True)[0]
+    r = C.run_tasks([{"fn": "c13.impl_run", "indict": ind, "disable_analytic": da, "runs": [rp["run"]], "before": rp.get("before", []), "fresh": True}], timeout=1800, stub=True)[0]
     if r.get("outcome") != "Ok" or not r["outs"][0]["ok"]:
         return False, "run failed: %s" % str(r)[:300]
     o = r["outs"][0]
     names, ivs = r["names"], r["ivs"]
+    if o["y_log"][0][:len(ivs)] != ivs and not any(s_ <= 0 for ts in rp["run"]["spk"].values() for s_ in ts):
+        return False, "trajectory starts at %s, the initial values are %s" % (o["y_log"][0], ivs)
     for row in o["y_log"][1:]:
         for i, nm in enumerate(names[:len(ivs)]):
             b = rp["run"]["bounds"].get(nm, {})
